@@ -380,6 +380,7 @@ def tables(rec):
         for kind in ('individual+regimen-indefinite', 'population+regimen-indefinite', 'population+cov+regimen-indefinite', 'posterior+regimen-indefinite'):
             for times in ((2.5, 1.0), (4.0, 0.5), (3.9,)):          # the last requested time is / is not a dosing time of the indefinite regimen 1.0, 2.5, 4.0, ...
                 yield (kind, 2, times)
+        yield ('bare-noncentred', 3, (1.0, 2.0))
         yield ('pam', 1500, (1.0, 0.5))
         yield ('pam', 4, (2.0,))
         yield ('pam-four', 60, (1.0, 0.5))
@@ -515,6 +516,20 @@ def tables(rec):
                     msg = check_regimen(df, None, max(times), 0 if indefinite else 3)
                     if msg:
                         return msg
+            return None
+        if kind == 'bare-noncentred':
+            # a bare (not composed) non-centred population model: the sampled individuals are the *transformed* parameters mu + sigma eta,
+            # and covariates handed to a model that has none are ignored (documented) -- with and without them the seeded samples are equal
+            for cls_, par_ in ((real.GaussianModel, [1.0, 1.5, 0.3, 0.4, 0.01, 0.01, 0.01, 0.01]), (real.LogNormalModel, [0.0, 0.4, -1.2, -0.9, 0.01, 0.01, 0.01, 0.01])):
+                ppm_ = real.PopulationPredictiveModel(pm, cls_(n_dim=4, centered=False))
+                a_ = np.asarray(ppm_.sample(par_, list(times), n_samples=n_samples, seed=9, return_df=False), dtype=float)
+                for cv_ in ([70.0], (70.0,), [[70.0]]):
+                    try:
+                        b_ = np.asarray(ppm_.sample(par_, list(times), n_samples=n_samples, seed=9, covariates=cv_, return_df=False), dtype=float)
+                    except Exception as ex:
+                        return '%s(non-centred) without covariates: sample(covariates=%r) raises %r (covariates of a model without covariates are ignored)' % (cls_.__name__, cv_, ex)
+                    if a_.shape != b_.shape or not np.allclose(a_, b_):
+                        return '%s(non-centred) without covariates: sample(covariates=%r) differs from sample() with the same seed (e.g. %s vs %s)' % (cls_.__name__, cv_, np.round(b_.flatten()[:3], 4).tolist(), np.round(a_.flatten()[:3], 4).tolist())
             return None
         if kind == 'pam-four':
             # four models that all contribute (weights 1, 2, 1, 3): every sample has its own ID 1..n, whichever model it came from
